@@ -1,6 +1,6 @@
 (* C01link — the first instance of C01_full with no gap: for every program q of the fragment F0 /\ F
    (identity, scalar literals, pipe, comma, empty, t[], t.k, if/else, try/catch and ?, error, length,
-   `src as $x | body`, $x, array construction [q], reduce, the alternative operator //) that compiles, every input v (integers, strings, arrays, objects), the final
+   `src as $x | body`, $x, array construction [q], reduce, foreach (2- and 3-argument), the alternative operator //) that compiles, every input v (integers, strings, arrays, objects), the final
    code emitted for q (coq/c01vm/Compile.v: tied to compiler.go by instruction-list comparison on every
    sampled program) run on the VM (coq/c01vm/VM.v, natives = Sem's) produces exactly the outputs and the ending
    that the reference semantics Sem.observe gives for the translated program (tied to gojq by the C01
@@ -78,6 +78,27 @@ Example C01link_nonvacuous_alt :
       let o := observe builtin_defs 60 50 false [] (emb q') (emb_v v) in
       let r := c01vm.VM.run sem_natives code 600 (c01vm.VM.init v) in
       o = ([VArr [VInt 1; VStr (codes "none"); VStr (codes "none")]], EndNormal) /\ fst o = map emb_v (fst r) /\ end_rel (snd o) (snd r)
+  | _, _ => False
+  end.
+Proof. vm_compute. repeat split; reflexivity. Qed.
+
+(* foreach with an extraction, under a try, inside [..]: [foreach .[] as $x (0; $x; [$x, .])] on [1, 2] and the
+   2-argument form whose update fails in the middle: [try (foreach .[] as $x (.; $x.a)) catch 7] *)
+Example C01link_nonvacuous_foreach :
+  let q := c01vm.Syntax.QComma
+     (c01vm.Syntax.QArray (c01vm.Syntax.QForeach (c01vm.Syntax.QIter c01vm.Syntax.QId) 0%N
+        (c01vm.Syntax.QConst (c01vm.Syntax.VNum 0)) (c01vm.Syntax.QVar 0%N)
+        (Some (c01vm.Syntax.QArray (c01vm.Syntax.QComma (c01vm.Syntax.QVar 0%N) c01vm.Syntax.QId)))))
+     (c01vm.Syntax.QArray (c01vm.Syntax.QTry (c01vm.Syntax.QForeach (c01vm.Syntax.QIter c01vm.Syntax.QId) 0%N
+        c01vm.Syntax.QId (c01vm.Syntax.QIndex (c01vm.Syntax.QVar 0%N) (c01vm.Syntax.VStr (codes "a"))) None)
+        (Some (c01vm.Syntax.QConst (c01vm.Syntax.VNum 7))))) in
+  let v := c01vm.Syntax.VArr [c01vm.Syntax.VObj [(codes "a", c01vm.Syntax.VNum 1)]; c01vm.Syntax.VNum 2] in
+  match tr q, c01vm.Compile.compile q with
+  | Some q', Some code =>
+      let o := observe builtin_defs 60 50 false [] (emb q') (emb_v v) in
+      let r := c01vm.VM.run sem_natives code 900 (c01vm.VM.init v) in
+      List.length (fst o) = 2%nat /\ nth 1 (fst o) VNull = VArr [VInt 1; VInt 7] /\
+      fst o = map emb_v (fst r) /\ end_rel (snd o) (snd r)
   | _, _ => False
   end.
 Proof. vm_compute. repeat split; reflexivity. Qed.
